@@ -1,0 +1,9 @@
+//go:build verif
+
+// Contracts for package server (comment-only; read by /verif/govc).
+
+package server
+
+// ---- read limits (C13): the limiter channels are sized from the configuration
+//@ func New
+//@   ensures [limiters-sized] result != nil && result.catLimiter != nil && result.tailLimiter != nil && result.catLimiter.cap == config.Server.MaxConcurrentCats && result.tailLimiter.cap == config.Server.MaxConcurrentTails
